@@ -47,6 +47,22 @@ const (
 
 // DecodeReasons is Decode with every reason that lowered the class.
 func DecodeReasons(b []byte) (names []string, class Class, reasons []string) {
+	names, _, class, reasons = decodeAll(b)
+	return names, class, reasons
+}
+
+// Structure returns the names of b as lists of labels (nil when b is malformed). Unlike the dotted strings of
+// Decode it distinguishes a label that contains a '.' octet from two labels: "first.last" as ONE label and
+// "first","last" as TWO labels are different names on the wire (RFC 1035 section 3.1: labels are arbitrary octets).
+func Structure(b []byte) [][]string {
+	_, st, class, _ := decodeAll(b)
+	if class == Malformed {
+		return nil
+	}
+	return st
+}
+
+func decodeAll(b []byte) (names []string, structure [][]string, class Class, reasons []string) {
 	worsen := func(c Class, why string) {
 		if c > class {
 			class = c
@@ -79,8 +95,9 @@ func DecodeReasons(b []byte) (names []string, class Class, reasons []string) {
 					worsen(Grey, GreyUnterminatedTarget)
 					if len(labels) > 0 {
 						names = append(names, strings.Join(labels, "."))
+						structure = append(structure, labels)
 					}
-					return names, class, reasons
+					return names, structure, class, reasons
 				}
 				break // partial name (RFC 4704)
 			}
@@ -93,11 +110,11 @@ func DecodeReasons(b []byte) (names []string, class Class, reasons []string) {
 			}
 			if l&0xC0 == 0xC0 {
 				if p+1 >= len(b) {
-					return nil, Malformed, []string{"compression pointer without second octet"}
+					return nil, nil, Malformed, []string{"compression pointer without second octet"}
 				}
 				off := (l&0x3F)<<8 | int(b[p+1])
 				if off >= len(b) {
-					return nil, Malformed, []string{"compression pointer beyond the buffer"}
+					return nil, nil, Malformed, []string{"compression pointer beyond the buffer"}
 				}
 				if jumped {
 					worsen(Grey, GreyChain)
@@ -111,17 +128,17 @@ func DecodeReasons(b []byte) (names []string, class Class, reasons []string) {
 				}
 				jumps++
 				if jumps > 64 {
-					return nil, Grey, []string{GreyLoop}
+					return nil, nil, Grey, []string{GreyLoop}
 				}
 				jumped = true
 				p = off
 				continue
 			}
 			if l&0xC0 != 0 {
-				return nil, Malformed, []string{"reserved label type (length octet 0x40..0xBF)"}
+				return nil, nil, Malformed, []string{"reserved label type (length octet 0x40..0xBF)"}
 			}
 			if p+1+l > len(b) {
-				return nil, Malformed, []string{"label runs past the end of the buffer"}
+				return nil, nil, Malformed, []string{"label runs past the end of the buffer"}
 			}
 			if !jumped {
 				mine = append(mine, p)
@@ -141,7 +158,7 @@ func DecodeReasons(b []byte) (names []string, class Class, reasons []string) {
 			if !terminated && wire == 255 {
 				worsen(Grey, GreyLongName)
 			} else {
-				return nil, Malformed, []string{"name longer than 255 octets"}
+				return nil, nil, Malformed, []string{"name longer than 255 octets"}
 			}
 		}
 		for _, m := range mine {
@@ -149,6 +166,7 @@ func DecodeReasons(b []byte) (names []string, class Class, reasons []string) {
 		}
 		if terminated || len(labels) > 0 {
 			names = append(names, strings.Join(labels, "."))
+			structure = append(structure, labels)
 		}
 		if jumped {
 			pos = resume
@@ -156,7 +174,7 @@ func DecodeReasons(b []byte) (names []string, class Class, reasons []string) {
 			pos = p
 		}
 	}
-	return names, class, reasons
+	return names, structure, class, reasons
 }
 
 // Encode writes names in uncompressed RFC 1035 form.
